@@ -178,6 +178,7 @@ func collectFieldUse(p *Prog, fn *ssa.Function, depth int, fu *fieldUse, seen ma
 
 func c01(r *Report, s *Sem) {
 	p := r.P
+	defer r.Import(s, "C12", "R4", "R11", "the receive path decodes one byte stream with one decoder: the JSON decoder of a TCP transport is created only when the connection is bound (construction, TLS upgrade), over the wrapper — a decoder replaced in mid-stream loses the bytes the old one had buffered, and the tail of one envelope is decoded as another kind", 8)
 	R1 := r.Rule("R1", "field-coverage symmetry: every exported field of each envelope kind / document wrapper is read by its struct→wire function and written by its wire→struct function (embedded structs flattened, callees followed), and the set of wire-struct fields the encoder writes equals the set the decoder reads", 60)
 	R2 := r.Rule("R2", "MarshalJSON marshals the value returned by the struct→wire function and UnmarshalJSON unmarshals into the same wire struct type and populates from it (one set of JSON tags for both directions)", 14)
 	R3 := r.Rule("R3", "discriminator soundness: interpreting the kind discriminator over the nil-lattice with each kind's must-set / may-set wire fields yields exactly one tag, and the wire→envelope switch constructs that kind's type for it", 10)
